@@ -71,6 +71,10 @@ class JWTBearerClientAssertion:
         except JoseError as e:
             log.debug("Assertion Error: %r", e)
             raise InvalidClientError(description=e.description) from e
+        except ValueError as e:
+            # the key does not fit the algorithm named in the assertion header
+            log.debug("Assertion Error: %r", e)
+            raise InvalidClientError(description="Invalid client assertion") from e
         return claims
 
     def authenticate_client(self, client):
@@ -85,7 +89,7 @@ class JWTBearerClientAssertion:
             # https://tools.ietf.org/html/rfc7523#section-3
             # For client authentication, the subject MUST be the
             # "client_id" of the OAuth client
-            client_id = payload["sub"]
+            client_id = payload.get("sub")
             client = query_client(client_id)
             if not client:
                 raise InvalidClientError(
